@@ -84,7 +84,7 @@ var credHosts = []string{"repo.test", "repo.test:8080", "REPO.test", "charts.tes
 func corrCreds(seed uint64, n int, tier string, out string, replay string) {
 	m := StartModel()
 	defer m.Close()
-	rep := NewReport("C19", "creds", seed, "case = (repository URL, chart URL) pair differing in host, port, case, userinfo, default-port spelling or path, with/without pass-credentials, driven through (a) HTTPGetter.Get with explicit options, (b) ChartDownloader.DownloadTo for repo/chart references with relative or absolute index URLs and for absolute URLs with and without an owning repository, (c) ChartPathOptions.LocateChart --repo, (d) Pull.Run --repo, (e) Manager.Update; every request is captured by a local proxy (HTTP_PROXY) and the presence of the Authorization header per request is compared with the model; monitor: a request carrying the repository's credentials without pass-credentials has the repository's scheme and host:port; non-trivial = chart URL origin differs from repository origin; distinct = hash of the case")
+	rep := NewReport("C19", "creds", seed, "case = (repository URL, chart URL) pair differing in host, port, case, userinfo, default-port spelling or path, the chart URL sometimes spelled with an upper-case scheme or an empty fragment / query, with/without pass-credentials, driven through (a) HTTPGetter.Get with explicit options, (b) ChartDownloader.DownloadTo for repo/chart references with relative or absolute index URLs and for absolute URLs with and without an owning repository, (c) ChartPathOptions.LocateChart --repo, (d) Pull.Run --repo, (e) Manager.Update; every request is captured by a local proxy (HTTP_PROXY) and the presence of the Authorization header per request is compared with the model; monitor: a request carrying the repository's credentials without pass-credentials has the repository's scheme and host:port; non-trivial = chart URL origin differs from repository origin; distinct = hash of the case")
 	cp := &capture{indexes: map[string]string{}, redir: map[string]string{}}
 	srv := httptest.NewServer(http.HandlerFunc(cp.handler))
 	defer srv.Close()
@@ -136,6 +136,15 @@ func corrCreds(seed uint64, n int, tier string, out string, replay string) {
 		passAll := r.Chance(25)
 		repoURL := "http://" + repoHost + Pick(r, []string{"", "/charts", "/a/b"})
 		chartURL := "http://" + chartHost + Pick(r, []string{"/dl/foo-1.0.0.tgz", "/foo-1.0.0.tgz", "/charts/foo-1.0.0.tgz"})
+		// spellings of the same URL that a parse-and-print round trip changes (an index may spell its URLs so)
+		switch i % 7 {
+		case 2:
+			chartURL = "HTTP://" + strings.TrimPrefix(chartURL, "http://")
+		case 4:
+			chartURL += "#"
+		case 6:
+			chartURL += "?"
+		}
 		relative := r.Chance(25)
 		cs := map[string]any{"repoURL": repoURL, "chartURL": chartURL, "passAll": passAll, "relative": relative, "entry": i % 5}
 		ro, co := originOf(repoURL), originOf(chartURL)
